@@ -56,6 +56,76 @@ CFG = {
 }
 
 
+def shared_dataset_stream(chk, tier, prop):
+    """two or three channels of one frame fed from ONE data set (the `dataset_name` setter), each with its own cast dtype
+    or none, scalar or 2-D: the file must be, byte for byte, the one written when every channel has a copy of the data
+    under a data set name of its own (every channel is described and written under its own type)"""
+    import shutil
+    import tempfile
+    import numpy as np
+    from harness.common import rng
+    from harness.impl import call
+    from dliswriter import DLISFile
+    R = rng(prop, 'shared-data-set')
+    tmp = tempfile.mkdtemp(prefix='verif_shds_')
+    dts = ['uint8', 'uint16', 'uint32', 'int16', 'int32', 'float32', 'float64']
+    try:
+        for i in range(40 if tier == 'quick' else 400):
+            rows = R.choice([2, 3, 5])
+            width = R.choice([None, None, 3, 5])
+            src_dt = R.choice(dts)
+            shape = (rows,) if width is None else (rows, width)
+            x = np.array([R.randrange(0, 100) for _ in range(int(np.prod(shape)))]).reshape(shape).astype(src_dt)
+            casts = [R.choice([None, None] + [d for d in dts if d != src_dt]) for _ in range(R.choice([2, 2, 3]))]
+            how = R.choice(['setter', 'setter', 'write-dict'])
+
+            def build(shared):
+                df = DLISFile(set_identifier='SHDS')
+                lf = df.add_logical_file(fh_id='H')
+                lf.add_origin('O', file_set_number=1, creation_time='2020/01/01 00:00:00')
+                chans = [lf.add_channel('DEPTH', data=np.arange(rows, dtype=np.float64))]
+                data = {}
+                for k, c in enumerate(casts):
+                    kw = {} if c is None else {'cast_dtype': np.dtype(c)}
+                    if not shared:
+                        chans.append(lf.add_channel(f'C{k}', data=x.copy(), **kw))
+                    elif how == 'setter':
+                        if k == 0:
+                            chans.append(lf.add_channel(f'C{k}', data=x, dataset_name='x', **kw))
+                        else:
+                            ch = lf.add_channel(f'C{k}', **kw)
+                            ch.dataset_name = 'x'
+                            chans.append(ch)
+                    else:
+                        ch = lf.add_channel(f'C{k}', **kw)
+                        ch.dataset_name = 'x'
+                        chans.append(ch)
+                        data = {'x': x}
+                lf.add_frame('F', channels=chans)
+                return df, data
+            case = {'rows': rows, 'width': width, 'data_dtype': src_dt, 'cast_dtypes': casts, 'shared_through': how}
+            out = []
+            for shared in (False, True):
+                def go():
+                    df, data = build(shared)
+                    path = f'{tmp}/{int(shared)}.dlis'
+                    df.write(path, output_chunk_size=2**20, **({'data': data} if data else {}))
+                    return open(path, 'rb').read()
+                out.append(call(go))
+            (s0, b0), (s1, b1) = out
+            chk.case('shared-data-set', nontrivial_key=('shds', i), sample=dict(case, own_copies=s0, shared=s1))
+            chk.count(f'shared-data-set:{s0}:{s1}')
+            if s0 != 'ok':
+                continue
+            if s1 != 'ok':
+                chk.fail('shared-data-set:refused', case, f'channels sharing a data set: write raises {b1}; with copies of the data it succeeds')
+            elif b0 != b1:
+                chk.fail('shared-data-set:file-differs', case, 'the file written from one shared data set differs from the one '
+                         'written from a copy of the data per channel (a channel written under another channel\'s type)')
+    finally:
+        shutil.rmtree(tmp, ignore_errors=True)
+
+
 def run_prop(prop, tier):
     cfg = CFG[prop]
     chk = Check(prop, tier)
@@ -102,11 +172,14 @@ def run_prop(prop, tier):
         wf.run_noformat_oracle(runs, model, bres, chk)
     if prop == 'C08':
         rewrite_stream(chk, model, bres, tier)
+    if prop in ('C08', 'C03'):
+        shared_dataset_stream(chk, tier, prop)
+    if prop in ('C08', 'C03'):
         # a frame that lists two channels of one name (they differ in copy number only): refused, or written so that the
         # descriptors of BOTH channels describe the slots of every row
         from harness.common import rng
         from harness import filegen
-        Rs = rng('C08', 'same-named')
+        Rs = rng(prop, 'same-named')
         specs2 = []
         for i in range(40 if tier == 'quick' else 300):
             sp = filegen.gen_spec(Rs, n_lf=1, small=True)
@@ -126,8 +199,9 @@ def run_prop(prop, tier):
         good2 = []
         for r in runs2:
             chk.case('same-named-channels', nontrivial_key=('snc', r.index), sample=wf.sample_of(r))
-            if r.res['status'] == 'ok' and bres.ok and wf.oracle_readable(r, chk, 'c08-same-named'):
-                wf.oracle_channel_descriptors(r, chk)
+            if r.res['status'] == 'ok' and bres.ok and wf.oracle_readable(r, chk, prop.lower() + '-same-named'):
+                if prop == 'C08':
+                    wf.oracle_channel_descriptors(r, chk)
                 good2.append(r)
         before = len(chk.failures)
         wf.run_frames_oracle(good2, model, bres, chk)
